@@ -56,3 +56,221 @@ def align():
             print('REPLAY: VIOLATION-CONFIRMED free indices are not ordered as requested')
             return
     print('REPLAY: not reproduced')
+
+
+# ---------------------------------------------------------------- _Substring scanning (reference semantics, small exhaustive family)
+
+_OPEN, _CLOSE = '([{<', ')]}>'
+
+
+def _texts(alphabet='a (+)', maxlen=6):
+    import itertools
+    for n in range(maxlen + 1):
+        for t in itertools.product(alphabet, repeat=n):
+            yield ''.join(t)
+
+
+def _ref_find(text, matchers):
+    """first offset at bracket level 0 (closers counted before, openers after the test) where a matcher fires"""
+    level = 0
+    for k, ch in enumerate(text):
+        if ch in _CLOSE:
+            level -= 1
+        if level == 0:
+            for j, m in enumerate(matchers):
+                n = m(text[k:])
+                if n:
+                    return j, k, n
+        if ch in _OPEN:
+            level += 1
+    return -1, len(text), 0
+
+
+def _ref_split(text, matchers):
+    out = []
+    first = None
+    while True:
+        j, k, n = _ref_find(text, matchers)
+        out.append((first, text[:k]))
+        if not n:
+            return out
+        text, first = text[k + n:], j
+    
+
+def _sub(text, pad=(1, 2)):
+    from nutils.expression_v2 import _Substring
+    base = 'x' * pad[0] + text + ')' * pad[1]
+    return _Substring(base, pad[0], pad[0] + len(text))
+
+
+def _report(what, text, got, want):
+    print('%s on %r: real code gives %r, the contract requires %r' % (what, text, got, want))
+    print('REPLAY: VIOLATION-CONFIRMED')
+
+
+def find():
+    from nutils.expression_v2 import _match, _match_spaces
+    ms = (_match(' + '), _match_spaces)
+    for text in _texts('a ({+)', 5):
+        for matchers in (ms[:1], ms[1:], ms):
+            try:
+                got = _sub(text)._find(*matchers)
+            except Exception as e:
+                return _report('_find', text, type(e).__name__, _ref_find(text, matchers))
+            if tuple(got) != _ref_find(text, matchers):
+                return _report('_find', text, tuple(got), _ref_find(text, matchers))
+    print('REPLAY: not reproduced')
+
+
+def matchers():
+    from nutils.expression_v2 import _match, _match_spaces
+    for text in _texts('a +/^_', 5):
+        for lit in (' + ', ' / ', '^', '_'):
+            want = len(lit) if text[:len(lit)] == lit else 0
+            if _match(lit)(text) != want:
+                return _report('_match(%r)' % lit, text, _match(lit)(text), want)
+        want = len(text) - len(text.lstrip(' '))
+        k = 0
+        while k < len(text) and text[k] == ' ':
+            k += 1
+        if _match_spaces(text) != k:
+            return _report('_match_spaces', text, _match_spaces(text), k)
+    print('REPLAY: not reproduced')
+
+
+def partition():
+    from nutils.expression_v2 import _match
+    for text in _texts('a_()', 6):
+        j, k, n = _ref_find(text, (_match('_'),))
+        want = (text[:k], text[k:k + n], text[k + n:])
+        try:
+            s = _sub(text)
+            got = tuple(str(p) for p in s.partition(_match('_')))
+            rng = [(p.start, p.stop) for p in s.partition(_match('_'))]
+        except Exception as e:
+            return _report('partition', text, type(e).__name__, want)
+        if got != want or rng[0][0] != s.start or rng[2][1] != s.stop or rng[0][1] != rng[1][0] or rng[1][1] != rng[2][0]:
+            return _report('partition', text, got, want)
+    print('REPLAY: not reproduced')
+
+
+def split():
+    from nutils.expression_v2 import _match, _match_spaces
+    for text in _texts('a (+)', 7):
+        for matchers, first in (((_match_spaces,), None), ((_match(' + '), _match(' ')), 7)):
+            want = _ref_split(text, matchers)
+            try:
+                s = _sub(text)
+                got = [str(p) for p in s.split(*matchers)]
+                goti = [(j, str(p)) for j, p in s.isplit(*matchers, first=first)]
+                rng = [(p.start, p.stop) for p in s.split(*matchers)]
+            except Exception as e:
+                return _report('split', text, type(e).__name__, [p for _, p in want])
+            if got != [p for _, p in want]:
+                return _report('split', text, got, [p for _, p in want])
+            if goti != [(first if j is None else j, p) for j, p in want]:
+                return _report('isplit', text, goti, [(first if j is None else j, p) for j, p in want])
+            if rng[0][0] != s.start or rng[-1][1] != s.stop or any(a > b for a, b in rng) or any(p[1] >= q[0] for p, q in zip(rng, rng[1:])):
+                return _report('split (ranges)', text, rng, 'pieces tile the input with non-empty separators')
+    print('REPLAY: not reproduced')
+
+
+def trim():
+    for text in _texts('a ', 6):
+        s = _sub(text)
+        try:
+            t = s.trim()
+        except Exception as e:
+            return _report('trim', text, type(e).__name__, text.strip(' '))
+        lead = len(text) - len(text.lstrip(' '))
+        want = (s.start + lead, s.start + lead + len(text.strip(' '))) if text.strip(' ') else None
+        if str(t) != text.strip(' ') or not (s.start <= t.start <= t.stop <= s.stop) or (want and (t.start, t.stop) != want):
+            return _report('trim', text, (str(t), t.start, t.stop), (text.strip(' '), want))
+    print('REPLAY: not reproduced')
+
+
+def strip():
+    for text in _texts('a-) ', 5):
+        s = _sub(text)
+        for name, lit, want in (('strip_prefix', '-', text[1:] if text[:1] == '-' else None), ('strip_suffix', ')', text[:-1] if text[-1:] == ')' else None),
+                                ('starts_with', ' ', text[:1] == ' '), ('ends_with', ' ', text[-1:] == ' ')):
+            try:
+                got = getattr(s, name)(lit)
+            except Exception as e:
+                return _report(name, text, type(e).__name__, want)
+            got = got if isinstance(got, bool) or got is None else str(got)
+            if got != want:
+                return _report('%s(%r)' % (name, lit), text, got, want)
+    print('REPLAY: not reproduced')
+
+
+# ---------------------------------------------------------------- parser: index bookkeeping and error behaviour on a concrete family
+
+def parser():
+    """valid strings must evaluate to their index-notation reading (free indices sorted alphabetically by `@`);
+    rule-violating strings must raise ExpressionSyntaxError -- not be accepted, not raise anything else"""
+    import numpy
+    from nutils import function
+    from nutils.expression_v2 import Namespace, ExpressionSyntaxError
+    rng = numpy.random.RandomState(0)
+    V = dict(a=rng.rand(3), b=rng.rand(3), c=rng.rand(2), A=rng.rand(3, 3), B=rng.rand(3, 3), C=rng.rand(2, 3), T=rng.rand(3, 3, 3), s=numpy.array(2.), t=numpy.array(3.))
+    ns = Namespace()
+    for k, v in V.items():
+        setattr(ns, k, function.Array.cast(v))
+    a, b, c, A, B, C, T, s, t = (V[k] for k in 'abcABCTst')
+    E = numpy.einsum
+    valid = [('A_ij + B_ji', A + B.T), ('A_ij - B_ij', A - B), ('-A_ij + B_ij', B - A), ('-a_i', -a), ('a_i + b_i - a_i', b), ('A_ji + B_ij', A.T + B),
+             ('T_ijk + T_kij', T + E('kij->ijk', T)), ('T_ijk + T_jki', T + E('jki->ijk', T)), ('T_ijk - T_kji', T - E('kji->ijk', T)), ('T_kij + T_ijk', E('kij->ijk', T) + T),
+             ('a_i b_i', a @ b), ('A_ij a_j', A @ a), ('a_i b_j', numpy.outer(a, b)), ('b_j a_i', numpy.outer(a, b)), ('a_i A_ij b_j', a @ A @ b), ('A_ii', numpy.trace(A)),
+             ('T_iij a_j', E('iij,j->', T, a)), ('T_iji', E('iji->j', T)), ('a_j C_ij', C @ a), ('C_ij a_j + c_i', C @ a + c), ('A_ij a_i b_j + s', a @ A @ b + s),
+             ('s a_i / t', s * a / t), ('a_i / s t', a / (s * t)), ('a_i / b_j b_j', a / (b @ b)), ('a_i b_i / a_j a_j', (a @ b) / (a @ a)), ('2 a_i', 2 * a), ('a_i^2', a**2),
+             ('s^2 a_i', 4 * a), ('a_i^-2', a**-2.), ('a_i^(s + t)', a**5), ('-s^2', -4.), ('a_1', a[1]), ('A_i0', A[:, 0]), ('A_0i', A[0]), ('A_1i a_i', A[1] @ a), ('T_i2i', E('ii->', T[:, 2, :])),
+             ('T_0ij + A_ji', T[0] + A.T), ('T_i1j A_ij', (T[:, 1, :] * A).sum()), ('(a_i + b_i) a_i', (a + b) @ a), ('(A_ij + B_ji) a_j', (A + B.T) @ a), ('a_i (b_j b_j)', a * (b @ b)),
+             ('A_ij B_jk', A @ B), ('A_ij B_kj', A @ B.T), ('A_ik B_kj + A_ij', A @ B + A), ('  a_i  ', a), ('a_i  b_i', a @ b),
+             ('{a_i}', a), ('[a_i]', 0 * a), ('{a_i + b_i} a_i', (a + b) @ a), ('[A_ij] + A_ji', A.T), ('2^2 a_i', 4 * a), ('2^(1 + 1) a_i', 4 * a), ('(a_i b_i)^2', (a @ b)**2), ('a_i^(b_j b_j)', a**(b @ b)), ('T_ij1', T[:, :, 1]), ('T_1i0', T[1, :, 0]), ('T_ij2 A_ij', (T[:, :, 2] * A).sum())]
+    invalid = ['a_i + A_ij', 'A_ij + a_i', 'a_i + c_i', 'A_ij + C_ij', 'C_ij + A_ij', 'A_ij + A_ik', 'a_i a_i a_i', 'A_ii a_i', 'a_i A_ii', 'T_iii', 'a_i / b_j', 'a_i b_i / a_i', 's / s / s',
+               'a_i a_i / b_i b_i', 'a_i / b_i b_i', '(a_i a_i) b_i', 'a_i (b_i b_i)', 'a_i^(b_i b_i)', 'x', 'a_ij', 'A_i', 'a_3', 'C_2i', 'a_A', 'a_i 2', '2 2 a_i', 'a_i + -b_i', 'a_i +b_i', 'a_i+ b_i', 'a_i+b_i', 'a_i -b_i',
+               'a_i/ s', 'a_i /s', '', ' ', '-', '(a_i', 'a_i)', '[a_i)', 'a_i (', '() a_i', 'a_i^b_j', 'a_i^2^2', 'a_i ^2', 'a_i^ 2', 'a_i^', '^2', 'a_i + ', ' + a_i', 'a_i - ', 'a_i / ', ' / s', 'a_i^x', 'f(a_i)', 'a_i c_i', 'a_i^(2)b', 'a_i^b(2)', 'a_i 2^2', 'a_i^(2', 'a_i^[2]', 'a_i^2 ^2', 'a_i^-', '<a_i>', 'a_i [', 'a[a_i]', 'a{a_i}', '(a_i]', '{a_i) b_i', '(a_i) b', '1.2.3', '.', 'A_i3', 'T_0i3', 'A_i-', 'A_iI']
+    for expr, want in valid:
+        try:
+            got = numpy.asarray((expr @ ns).eval())
+        except Exception as e:
+            print('%r raised %s: %s' % (expr, type(e).__name__, str(e).split(chr(10))[0][:100]))
+            print('REPLAY: VIOLATION-CONFIRMED a valid expression is rejected')
+            return
+        if got.shape != numpy.shape(want) or not numpy.allclose(got, want):
+            print('%r evaluates to an array of shape %s that differs from its index-notation reading (shape %s)' % (expr, got.shape, numpy.shape(want)))
+            print('REPLAY: VIOLATION-CONFIRMED')
+            return
+    for expr in invalid:
+        try:
+            got = expr @ ns
+        except ExpressionSyntaxError:
+            continue
+        except Exception as e:
+            print('%r raised %s instead of ExpressionSyntaxError: %s' % (expr, type(e).__name__, str(e)[:100]))
+            print('REPLAY: VIOLATION-CONFIRMED a rule-violating string does not raise the expression syntax error')
+            return
+        print('%r (violates a documented rule) was accepted: shape %s' % (expr, got.shape))
+        print('REPLAY: VIOLATION-CONFIRMED an invalid expression is silently evaluated')
+        return
+    print('REPLAY: not reproduced')
+
+
+def partition_scope():
+    for text in _texts('a()[]<', 6):
+        _, i, _n = _ref_find(text, (lambda t: t[0] in _OPEN,))
+        _, j, _n = _ref_find(text[i:], (lambda t: t[0] in _CLOSE,))
+        j += i
+        want = (text[:i], text[i:i + 1], text[i + 1:j], text[j:j + 1], text[j + 1:])
+        try:
+            s = _sub(text)
+            ps = s.partition_scope()
+            got = tuple(str(p) for p in ps)
+        except Exception as e:
+            return _report('partition_scope', text, type(e).__name__, want)
+        ok = got == want and ps[0].start == s.start and ps[4].stop == s.stop and all(p.stop == q.start for p, q in zip(ps, ps[1:]))
+        ok = ok and (got[1] == '' or got[1] in _OPEN) and (got[3] == '' or got[3] in _CLOSE) and (got[1] != '' or got[2:] == ('', '', '')) and (got[3] != '' or got[4] == '')
+        if not ok:
+            return _report('partition_scope', text, got, want)
+    print('REPLAY: not reproduced')
